@@ -25,7 +25,7 @@ def _ev(results, tier):
 
 CHECK = {
     'level': 'exploration',
-    'rule': ('[nested] in mode clear some elements of every container type own a private container OF THE SAME TYPE that the outer callback clears through the library with another callback function / priv (map: also the NULL callback): every element reaches exactly its own container\'s callback once, the outer walk goes on after each nested clear, the emptied inner container is re-used; every second clear runs with an allocator that refuses everything; '
+    'rule': ('[big] 2^20+3 list elements, 300 000 tree/heap elements, 6000 map entries cleared in one call, the second round while the allocator refuses everything (harness/cycles.c); callbacks re-read their iterator / priv arguments after a nested clear; [nested] in mode clear some elements of every container type own a private container OF THE SAME TYPE that the outer callback clears through the library with another callback function / priv (map: also the NULL callback): every element reaches exactly its own container\'s callback once, the outer walk goes on after each nested clear, the emptied inner container is re-used; every second clear runs with an allocator that refuses everything; '
              'the closure generators of C13 (slist), C12 (dlist), C01/C02 (bintree and rbtree), C07 (heap) and C08 (map) drive '
              'each container into every reachable state of its small scope; on a replica of every newly discovered state '
              'clear is called with a callback that checks the exactly-once/member-only state machine, overwrites the whole '
